@@ -33,7 +33,8 @@ type Rule struct {
 // the following write/sync/seek/read fails), rmdir (remove the directory in
 // Dir so that the following TempFile fails), readonly (swap the descriptor for a
 // read-only one so that writes fail but later seeks and reads work), corrupt (overwrite the file's
-// content with garbage so that the following decode fails).
+// content with garbage so that the following decode fails), truncate (cut the
+// last byte off the file so that its final record cannot be read).
 type Fault struct {
 	Step   string `json:"step"`
 	Occ    int    `json:"occ"`
@@ -167,6 +168,17 @@ func (s *Scheduler) apply(ft Fault, f *os.File) {
 		if s.Dir != "" {
 			os.RemoveAll(s.Dir)
 			desc = "removed " + s.Dir
+		}
+	case "truncate":
+		// cut the last byte off the run file: its final record is incomplete, and the read that
+		// reaches it fails with an unexpected end of file (a record boundary is never hit: every
+		// gob message is at least three bytes long)
+		if f != nil {
+			if st, err := os.Stat(f.Name()); err == nil && st.Size() >= 2 {
+				if os.Truncate(f.Name(), st.Size()-1) == nil {
+					desc = fmt.Sprintf("truncated %s to %d bytes", filepath.Base(f.Name()), st.Size()-1)
+				}
+			}
 		}
 	case "corrupt":
 		if f != nil {
